@@ -61,3 +61,18 @@ From AV Require Import Model.Src Gen.GenSrc Model.SrcShape.
 Theorem C07_source_reason_before_closed : chclose_shape_ok = true.
 Proof. vm_compute. reflexivity. Qed.
 Print Assumptions C07_source_reason_before_closed.
+
+From AV Require Import Model.FlagSem Proofs.FlagSemP.
+(* any number of callers in check_for_errors while the reader records a broker
+   Channel.Close, statement by statement, EVERY schedule: nobody raises the code-less
+   'channel closed' *)
+Theorem C07_concurrent_never_codeless : forall n sched, no_codeless (rdr_run true true n sched) = true.
+Proof. exact never_codeless. Qed.
+Print Assumptions C07_concurrent_never_codeless.
+
+(* both halves of the shape fact are needed *)
+Theorem C07_closed_before_reason_refuted : exists sched, no_codeless (rdr_run false true 1 sched) = false.
+Proof. exact closed_before_reason_refuted. Qed.
+Theorem C07_no_recheck_refuted : exists sched, no_codeless (rdr_run true false 1 sched) = false.
+Proof. exact no_recheck_refuted. Qed.
+Print Assumptions C07_no_recheck_refuted.
